@@ -392,3 +392,44 @@ theorem b64Pad_accepts : ∀ (bs : List Nat), (∀ b ∈ bs, b < 256) → bs.len
     exact ih (fun x hx => h x (by simp [hx])) (by simp only [List.length_cons] at hl; omega) 1 (Or.inr rfl)
 
 end Jap.TextSafe
+
+namespace Jap.TextSafe
+open Jap.Dfa Jap.Scalar Jap.Typing
+
+/-! ### `complex`: `(…)`, or a text that contains `j` (a character no resolver regex mentions) -/
+
+def cParen : Nat := charClass '('
+def mParen : Img := ⟨2, fun q c => if q = 0 then (if c = cParen then 1 else 2) else q, fun q => q == 1⟩
+
+theorem paren_cert : certOK mParen 0 (computeInv mParen) = true := by decide +kernel
+
+theorem paren_accepts (rest : List Char) : mParen.accepts 0 (classes ('(' :: rest)) = true := by
+  rw [classes_cons, accepts_step _ _ _ _ (by decide)]
+  have : mParen.step 0 (charClass '(') = 1 := by simp [mParen, cParen]
+  rw [this]
+  exact accepts_absorbing mParen 1 (by decide) rfl (fun c => rfl) _
+
+def cJ : Nat := charClass 'j'
+/-- once a character of the class of `j` has been read the text is accepted, whatever follows -/
+def mHasJ : Img := ⟨2, fun q c => if q = 0 then (if c = cJ then 1 else 0) else q, fun q => q == 1⟩
+
+theorem hasJ_cert : certOK mHasJ 0 (computeInv mHasJ) = true := by decide +kernel
+
+theorem hasJ_accepts (a b : List Char) : mHasJ.accepts 0 (classes (a ++ 'j' :: b)) = true := by
+  induction a with
+  | nil =>
+    rw [List.nil_append, classes_cons, accepts_step _ _ _ _ (by decide)]
+    have : mHasJ.step 0 (charClass 'j') = 1 := by simp [mHasJ, cJ]
+    rw [this]
+    exact accepts_absorbing mHasJ 1 (by decide) rfl (fun c => rfl) _
+  | cons x t ih =>
+    rw [List.cons_append, classes_cons, accepts_step _ _ _ _ (by decide)]
+    by_cases hx : charClass x = cJ
+    · have : mHasJ.step 0 (charClass x) = 1 := by simp [mHasJ, hx]
+      rw [this]
+      exact accepts_absorbing mHasJ 1 (by decide) rfl (fun c => rfl) _
+    · have : mHasJ.step 0 (charClass x) = 0 := by simp [mHasJ, hx]
+      rw [this]
+      exact ih
+
+end Jap.TextSafe
